@@ -82,6 +82,11 @@ fn so2_bound_choices(r: &mut Sm) -> Vec<Option<(f64, f64)>> {
         Some((4.0, 5.0)),
         Some((ulp_down(PI), PI)),
         Some((-PI, ulp_up(-PI))),
+        // a few ulps wide, away from the seam: any re-computation of the sampled angle shows
+        Some((0.3, ulp_up(ulp_up(ulp_up(0.3))))),
+        Some((ulp_down(ulp_down(-0.1)), -0.1)),
+        Some((1.1, ulp_up(1.1))),
+        Some((-2.7, ulp_up(ulp_up(-2.7)))),
     ];
     for _ in 0..4 {
         let a = r.range(-PI, PI);
@@ -95,7 +100,8 @@ fn so2_bound_choices(r: &mut Sm) -> Vec<Option<(f64, f64)>> {
 fn so3_bound_choices(r: &mut Sm) -> Vec<Option<([f64; 4], f64)>> {
     let h = std::f64::consts::FRAC_1_SQRT_2;
     let centres = [[0.0, 0.0, 0.0, 1.0], [1.0, 0.0, 0.0, 0.0], [0.0, h, 0.0, -h], r.quat(), r.quat()];
-    let radii = [0.0, 1e-12, 0.1, 0.5, 1.0, PI / 2.0, 2.0, 3.0, PI, 10.0];
+    // (cones below 0.1 rad are only enforced / checked, never sampled: rejection cost)
+    let radii = [0.0, 1e-12, 1e-3, 0.01, 0.03, 0.05, 0.1, 0.5, 1.0, PI / 2.0, 2.0, 3.0, PI, 10.0];
     let mut v = vec![None];
     for c in centres {
         for rad in radii {
@@ -205,7 +211,7 @@ fn comp_probes(r: &mut Sm, kind: &CK) -> Vec<Vec<f64>> {
                 let rad = rad.min(PI);
                 v.push(c.to_vec());
                 v.push(c.iter().map(|x| -x).collect());
-                for a in [rad, rad - 1e-9, rad + 1e-9, rad * 0.5, rad + 0.3, PI, 0.5 * (rad + PI)] {
+                for a in [rad, rad - 1e-9, rad + 1e-9, rad * 0.5, rad + 0.3, PI, 0.5 * (rad + PI), rad * 1.5, rad * 2.0, rad * 3.0, rad + 0.01, rad + 0.03, 0.06, 0.0632] {
                     if a >= 0.0 && a <= PI {
                         v.push(quat_at(r, c, a).to_vec());
                     }
